@@ -420,4 +420,17 @@ def array2d_original_orientation(shape, roe_corner, store_native):
         return "Array2D(store_native=%s).original_orientation raised %s: %s" % (store_native, type(e).__name__, e)
     if got.shape != a.shape or not np.array_equal(got, a):
         return "Array2D(store_native=%s).original_orientation = %r, un-rotated array is %r" % (store_native, got.tolist(), a.tolist())
+    # the array edited in place (the library's own idiom `array[region.slice] = 0`) after its orientation had been asked for:
+    # the un-rotated array is that of the CURRENT content
+    if store_native:
+        arr[0, 0] = -7.0
+        ra2 = ra.copy(); ra2[0, 0] = -7.0
+    else:
+        arr[0] = -7.0
+        ra2 = ra.copy(); ra2.reshape(-1)[0] = -7.0
+    want2 = lu.rotate_array_via_roe_corner_from(array=ra2.copy(), roe_corner=roe_corner)
+    got2 = np.asarray(arr.original_orientation)
+    if got2.shape != want2.shape or not np.array_equal(got2, want2):
+        return ("Array2D(store_native=%s): original_orientation read, one value edited in place, read again = %r, the un-rotated current "
+                "content is %r" % (store_native, got2.tolist(), want2.tolist()))
     return None
